@@ -83,7 +83,7 @@ def module_states(name, tier, nseeds=None, with_short=True, with_synth=True):
     from . import alphabet
     quick = tier != 'thorough'
     if nseeds is None:
-        nseeds = 4 if quick else None
+        nseeds = 4 if quick else 24
     sv = seedmod.seeds(name, nseeds)
     starts = []
     for s, v in sv:
